@@ -1887,6 +1887,9 @@ func (r *Raft) applyLoop() {
 			}
 		}
 
+		// A snapshot that is being installed may be waiting for its last entry to be applied.
+		r.applyCond.Broadcast()
+
 		if r.state == Leader {
 			r.readOnlyCond.Broadcast()
 		}
